@@ -304,7 +304,7 @@ pub fn plans(prop: &str, tier: &str, run_seed: u64, dry: &mut dyn FnMut(&Plan) -
                     s.faults.stall_at.push(c);
                 }
                 s.forbid_block[reader_t] = true;
-                s.own_step_bound[reader_t] = 3000;
+                s.own_step_bound[reader_t] = 20_000;
                 Plan { program: program.clone(), setup: s, opts: ExecOpts::default() }
             };
             let dry_plan = mk(None, None);
